@@ -7,6 +7,7 @@ import (
 	"fmt"
 	"os"
 	"strconv"
+	"strings"
 	"testing"
 	"time"
 
@@ -38,12 +39,15 @@ type Case struct {
 var (
 	simpleKinds  = []string{"lost", "error-reply", "duplicate"}
 	requestKinds = []string{"share-random", "share-for-other-id", "commitment-altered", "vector-short-consistent", "vector-long-consistent", "vector-truncated", "vector-extended"}
-	replyKinds   = []string{"reply-share-random", "reply-share-for-other-id", "reply-commitment-altered", "reply-vector-short-consistent", "reply-vector-long-consistent", "reply-vector-truncated", "reply-vector-extended"}
+	// after the honest contribution has been delivered and answered, a second one arrives on the same
+	// edge with a bad share (same or fresh vector): it must be rejected and change nothing
+	replayKinds = []string{"replay-share-random", "replay-share-for-other-id"}
+	replyKinds  = []string{"reply-share-random", "reply-share-for-other-id", "reply-commitment-altered", "reply-vector-short-consistent", "reply-vector-long-consistent", "reply-vector-truncated", "reply-vector-extended"}
 )
 
 func kindsFor(msg string) []string {
 	if msg == "contribute" {
-		return append(append(append([]string{}, simpleKinds...), requestKinds...), replyKinds...)
+		return append(append(append(append([]string{}, simpleKinds...), requestKinds...), replyKinds...), replayKinds...)
 	}
 
 	return simpleKinds
@@ -129,6 +133,8 @@ func run(c *Case) (*outcome, *vkit.Violation, error) {
 	o := &outcome{}
 	counts := map[string]int{}
 	pendingReply := map[*vkit.Msg]string{}
+	pendingReplay := map[*vkit.Msg]string{}
+	replayAccepted := ""
 	errorReply := map[*vkit.Msg]bool{}
 	onlyDuplicates := true
 	for _, f := range c.Faults {
@@ -172,6 +178,8 @@ func run(c *Case) (*outcome, *vkit.Violation, error) {
 				_, _ = cl.Net.Deliver(dup)
 				cl.Net.Before = saved
 				o.delivered = append(o.delivered, fmt.Sprintf("%s[%d] %s", m.Kind, idx, f.Kind))
+			case m.Kind == "contribute" && strings.HasPrefix(f.Kind, "replay-"):
+				pendingReplay[m] = strings.TrimPrefix(f.Kind, "replay-")
 			case m.Kind == "contribute" && len(f.Kind) > 6 && f.Kind[:6] == "reply-":
 				pendingReply[m] = f.Kind[6:]
 			case m.Kind == "contribute":
@@ -184,6 +192,20 @@ func run(c *Case) (*outcome, *vkit.Violation, error) {
 		return nil
 	}
 	cl.Net.After = func(m *vkit.Msg) error {
+		if kind, ok := pendingReplay[m]; ok {
+			delete(pendingReplay, m)
+			orig := m.Req.(*pb.ContributeRequest)
+			r := &pb.ContributeRequest{Account: orig.GetAccount(), Secret: orig.GetSecret(), VerificationVector: orig.GetVerificationVector()}
+			tamper(kind, &r.Secret, &r.VerificationVector, m.To, otherOf(m.To), int(c.T))
+			saved, savedAfter := cl.Net.Before, cl.Net.After
+			cl.Net.Before, cl.Net.After = nil, nil
+			_, err := cl.Net.Deliver(&vkit.Msg{Kind: "contribute", From: m.From, To: m.To, Account: m.Account, Req: r})
+			cl.Net.Before, cl.Net.After = saved, savedAfter
+			o.delivered = append(o.delivered, fmt.Sprintf("contribute-replay replay-%s", kind))
+			if err == nil {
+				replayAccepted = fmt.Sprintf("instance %d accepted a second contribution from %d whose share does not match its vector (replay-%s)", m.To, m.From, kind)
+			}
+		}
 		if kind, ok := pendingReply[m]; ok {
 			r := m.Resp.(*pb.ContributeResponse)
 			tamper(kind, &r.Secret, &r.VerificationVector, m.From, otherOf(m.From), int(c.T))
@@ -217,7 +239,16 @@ func run(c *Case) (*outcome, *vkit.Violation, error) {
 			holders = append(holders, fmt.Sprintf("%d(store=%v,fetcher=%v)", n.ID, s, f))
 		}
 	}
-	if onlyDuplicates {
+	onlyReplays := len(c.Faults) > 0
+	for _, f := range c.Faults {
+		if !strings.HasPrefix(f.Kind, "replay-") && f.Kind != "duplicate" {
+			onlyReplays = false
+		}
+	}
+	if replayAccepted != "" {
+		return o, vkit.Violf("bad-contribution-accepted."+firstKind(c), "%s: %s", where, replayAccepted), nil
+	}
+	if onlyDuplicates || onlyReplays {
 		// all-or-nothing
 		if o.success && len(holders) != int(c.N) {
 			return o, vkit.Violf("duplicate-delivery-inconsistent", "%s: success reported but %d instances hold the account: %v", where, len(holders), holders), nil
